@@ -16,6 +16,10 @@ CLAIMED = {
    text="Kernel-checked theorems over any commutative ring, any nesting depth, offsets and mode count: the circuit matrix equals the ordered product of the leaves' matrices embedded at their absolute ranges (cmat_flatten), is unitary when the leaves are, merge = nest, barriers are neutral, add rejects exactly misfitting ranges. The model's construction semantics (add/merge/nest, //, @, barrier, copy) is tied to /repo by running random straight-line programs over named circuit variables on both sides and comparing every variable's matrix and component listing after every statement.",
    note="All theorems closed under the global context.",
    tech="Coq proof by induction over the circuit tree + extracted-model differential correspondence"),
+ "C16": dict(cat="proof", ref="DESIGN.md §7 C16",
+   text="Kernel-checked theorems about an executable model of the request assembly (prepare_job_payload, check_circuit/check_input, Sampler._create_job and primitive selection, Job._handle_params, RemoteJob._create_payload_data and the max_samples clamp, from_local_processor, user sessions): for every platform and processor configuration an accepted payload deserialises to the configuration (circuit, full input incl. herald photons, heralds, post-selection, noise, filter, command) and satisfies the platform constraints, and nothing else is refused; for every history of processor operations, iterations, job creations and executions nothing reaches the network except one request per accepted execution, and every request describes the processor its job was built from with max_samples <= max_shots; keyword arguments land in the command or the mapping or the call is rejected; the local->remote relabelling is a permutation keeping the modes of interest in order. 'Conversion preserves the processor' is REFUTED for processors with heralds and an input (witness replayed on /repo, open finding) and proved on the complement. The model is tied to /repo on every run: the real RemoteProcessor/Sampler/RemoteJob/RPCHandler run under `responses`, captured request bodies are deserialised with perceval.deserialize and compared field by field with the model's payload and describe.",
+   note="All 22 theorems closed under the global context. Circuits, noise models and post-selection expressions are abstract values in the model (their codec is C15); matrices are compared numerically by the driver after the model's mode relabelling.",
+   tech="Coq proof (invariants over session histories, refutation witness by vm_compute) + extracted-model differential correspondence under a mocked HTTP layer"),
 }
 REASON_PENDING = "not yet built in this development (see DESIGN.md §10 for the build order); no check is claimed"
 
